@@ -57,7 +57,7 @@ func (c14) Runs(tier string) int {
 }
 func (c14) New() interface{} { return &c14Case{} }
 func (c14) Rule() string {
-	return fmt.Sprintf("LRU/FIFO/Random (plain or wrapped in StatsRecorder) driven with blocks manufactured by an overlay-only helper in package bgzf, following the reader's ownership discipline (a block returned as evicted or not retained is recycled with another base). Runs 0..%d enumerate EVERY history of length %d over a %d-symbol alphabet x 3 kinds x capacities {1,2} (exhaustive axis); later runs sample sequential histories (<=30 ops, 6 bases, cap 1..4, incl. Resize/Drop/Free) and concurrent histories (2..4 clients x <=8 ops) with statement-level yields inside bgzf/cache. Sequential histories are checked step by step against a set-valued reference model (capacity, refusal of unused blocks when full, victim = an unused block if one exists else the earliest-Put used block / any for Random, Peek/Len/Cap consistency, base of returned blocks, statistics); concurrent ones with porcupine v1.3.0 against the same model (Illegal = violation, Unknown = inconclusive). non-trivial: sequential: >=1 eviction and >=1 recycled block; concurrent: >=2 operations overlapped; distinct = (case, schedule signature)", c14EnumCount(), c14EnumLen, len(c14Alphabet))
+	return fmt.Sprintf("LRU/FIFO/Random (plain or wrapped in StatsRecorder) driven with blocks manufactured by an overlay-only helper in package bgzf, following the reader's ownership discipline (a block returned as evicted or not retained is recycled with another base). Runs 0..%d enumerate EVERY history of length %d over a %d-symbol alphabet x 3 kinds x capacities {1,2} (exhaustive axis); later runs sample sequential histories (<=30 ops, 6 bases, cap 1..4, incl. Resize/Drop/Free) and concurrent histories (2..4 clients x <=8 ops, incl. Resize/Drop/Free) with statement-level yields inside bgzf/cache. Sequential histories are checked step by step against a set-valued reference model (capacity, refusal of unused blocks when full, victim = an unused block if one exists else the earliest-Put used block / any for Random, Peek/Len/Cap consistency, base of returned blocks, statistics); concurrent ones with porcupine v1.3.0 against the same model (Illegal = violation, Unknown = inconclusive). non-trivial: sequential: >=1 eviction and >=1 recycled block; concurrent: >=2 operations overlapped; distinct = (case, schedule signature)", c14EnumCount(), c14EnumLen, len(c14Alphabet))
 }
 
 func genCOps(t *Tape, n int, concurrent bool) []COp {
@@ -80,11 +80,7 @@ func genCOps(t *Tape, n int, concurrent bool) []COp {
 		case k < 19:
 			ops = append(ops, COp{Op: "drop", N: t.Draw("work", 4)})
 		default:
-			if concurrent {
-				ops = append(ops, COp{Op: "len"})
-			} else {
-				ops = append(ops, COp{Op: "free", N: t.Draw("work", 5)})
-			}
+			ops = append(ops, COp{Op: "free", N: t.Draw("work", 5)})
 		}
 	}
 	return ops
